@@ -121,6 +121,10 @@ class Prop(core.Prop):
         for mk in ('none', 'one'):
             for src in ('built', 'text'):
                 yield dict(group, miss=0, mask=mk, comments=0, indep_units=True, source=src, subnames=True)
+        # header comment attributes whose value is empty or blank
+        for src in ('built', 'text'):
+            for ev in ('', '   '):
+                yield dict(group, miss=0, mask='one', comments=1, indep_units=True, source=src, emptycomment=ev)
         # fractional sampling times late in the day
         for mk in ('none', 'one'):
             for src in ('built', 'text'):
@@ -177,6 +181,8 @@ class Prop(core.Prop):
         misses = self.misses(case)
         nrec, ndep = t.shape
         comments = [COMMENTS[i] for i in range(4) if case['comments'] >> i & 1]
+        if 'emptycomment' in case:
+            comments = comments + [('STIPULATIONS_ON_USE', case['emptycomment']), ('REVISION', 'R1')]
         if 'lod' in case:
             val = LODS[case['lod']]
             if val == 'per-variable':
@@ -286,7 +292,7 @@ class Prop(core.Prop):
                      percode=bool(case.get('percode')), scale_attr=bool(case.get('scale_attr')),
                      lod=LODS[case['lod']] if 'lod' in case else '', f4=bool('f4code' in case),
                      lodvals=bool(case.get('lodvals')), fractime=bool(case.get('fractime')),
-                     subnames=bool(case.get('subnames')))
+                     subnames=bool(case.get('subnames')), emptycomment=bool('emptycomment' in case))
         vs = []
         ntrans = 0
         try:
